@@ -900,6 +900,9 @@ func (m *Model) ruleVIEW(r *Results) {
 				}
 			}
 		}
+		if di != nil && dd != nil {
+			m.ddocUnchangedShortcut(r, rule, tc.Fn, dd)
+		}
 		if di != nil {
 			r.check(dd != nil && instrReachable(dd.Call, di.Call, nil) && (dd.Call.Block() == di.Call.Block() || dd.Call.Block().Dominates(di.Call.Block())), rule, m.declName(tc.Fn)+" / replace design document", m.instrPos(di.Call), "the old design-document row (whose cascade removes its views and index rows) is deleted before the new one is inserted, in the same transaction", "a design document is inserted without first deleting the old row in the same transaction: old views and their index rows survive")
 		}
@@ -1492,3 +1495,122 @@ func (m *Model) pulledValue(v ssa.Value) bool {
 	}
 	return rec(v) && n > 0
 }
+
+// ddocUnchangedShortcut: a success return of the design-document writer that skips the
+// delete-and-reinsert ("unchanged") must be guarded by an equality that covers everything a view
+// definition persists (map AND reduce source): reflect.DeepEqual on the documents / view maps,
+// or a helper that reads every ViewDef field the INSERT binds.
+func (m *Model) ddocUnchangedShortcut(r *Results, rule string, K *ssa.Function, dd *SQLSite) {
+	// the ViewDef fields the views INSERT persists
+	persisted := map[string]bool{}
+	for _, s := range m.Sites {
+		if !m.reachableLocal(K)[s.Fn] && s.Fn != K {
+			continue
+		}
+		for _, v := range s.Variants {
+			st := v.Stmt()
+			if st == nil || st.Kind != sqlp.SInsert || lower(st.Table) != "views" {
+				continue
+			}
+			for _, vals := range st.Values {
+				for _, e := range vals {
+					if b, ok := s.bindingFor(e); ok && b.V != nil {
+						if _, f, ok := fieldLoad(stripConv(b.V)); ok && isNamed(derefType(f), sgbucketPath, "ViewDef") == false {
+							persisted[f.Name()] = true
+						} else if fv, ok := stripConv(b.V).(*ssa.Field); ok {
+							persisted[fieldOfField(fv).Name()] = true
+						}
+					}
+				}
+			}
+		}
+	}
+	isWholeType := func(t types.Type) bool {
+		if p, ok := t.(*types.Pointer); ok {
+			t = p.Elem()
+		}
+		return isNamed(t, sgbucketPath, "DesignDoc") || isNamed(t, sgbucketPath, "ViewMap") || isNamed(t, sgbucketPath, "ViewDef")
+	}
+	isDeepEqualWhole := func(call *ssa.Call) bool {
+		g := call.Common().StaticCallee()
+		if g == nil || g.Pkg == nil || g.Pkg.Pkg.Path() != "reflect" || g.Name() != "DeepEqual" {
+			return false
+		}
+		for _, a := range call.Common().Args {
+			mi, ok := a.(*ssa.MakeInterface)
+			if !ok || !isWholeType(mi.X.Type()) {
+				return false
+			}
+		}
+		return true
+	}
+	var coversAll func(f *ssa.Function) (bool, []string)
+	coversAll = func(f *ssa.Function) (bool, []string) {
+		read := map[string]bool{}
+		whole := false
+		for g := range m.reachableLocal(f) {
+			for _, b := range g.Blocks {
+				for _, ins := range b.Instrs {
+					switch x := ins.(type) {
+					case *ssa.Call:
+						if isDeepEqualWhole(x) {
+							whole = true
+						}
+					case *ssa.Field:
+						if isNamed(x.X.Type(), sgbucketPath, "ViewDef") {
+							read[fieldOfField(x).Name()] = true
+						}
+					case *ssa.FieldAddr:
+						if pt, ok := x.X.Type().(*types.Pointer); ok && isNamed(pt.Elem(), sgbucketPath, "ViewDef") {
+							read[fieldOf(x).Name()] = true
+						}
+					}
+				}
+			}
+		}
+		if whole {
+			return true, nil
+		}
+		var missing []string
+		for f := range persisted {
+			if !read[f] {
+				missing = append(missing, f)
+			}
+		}
+		sort.Strings(missing)
+		return len(missing) == 0, missing
+	}
+	n := 0
+	for _, ret := range returnsOf(K) {
+		if len(ret.Results) == 0 || !isNilConst(ret.Results[len(ret.Results)-1]) {
+			continue
+		}
+		if instrReachable(dd.Call, ret, nil) {
+			continue // after the delete: the normal path
+		}
+		n++
+		key := m.declName(K) + " / unchanged design document shortcut"
+		good, why := false, "no equality test guards it"
+		for _, ct := range controllingConds(K, ret.Block()) {
+			call, ok := stripConv(ct.If.Cond).(*ssa.Call)
+			if !ok || !ct.Branch {
+				continue
+			}
+			if isDeepEqualWhole(call) {
+				good = true
+				continue
+			}
+			if h := call.Common().StaticCallee(); h != nil && m.inPkg(h) {
+				if okc, missing := coversAll(h); okc {
+					good = true
+				} else {
+					why = "the comparison " + h.Name() + " never looks at ViewDef." + strings.Join(missing, ", ViewDef.")
+				}
+			}
+		}
+		r.check(good, rule, key, m.instrPos(ret), "the write is skipped only when the stored design document equals the new one in everything that is persisted", "the design-document writer returns success without writing when a comparison finds the document 'unchanged', but "+why+": a replacement that differs only there is silently dropped and queries keep using the superseded definition")
+	}
+	_ = n
+}
+
+func derefType(v *types.Var) types.Type { return v.Type() }
